@@ -429,7 +429,8 @@ type datum struct {
 	Key       string
 	Value     int64
 
-	stack bool // the datum comes from a stack counter
+	stack bool   // the datum comes from a stack counter
+	name  string // the full counter name (with its bucket), or the stack counter's name
 }
 
 // formatDateTime formats the date to the format that
@@ -471,9 +472,11 @@ func charts(reports []*telemetryReport, cfg *config.Config) (*chartdata, error) 
 			active := false
 			for _, d := range cdata {
 				if d.stack {
-					active = active || cfg.HasStack(pg.Name, c.Name)
+					active = active || cfg.HasStack(pg.Name, d.name)
 				} else {
-					active = active || cfg.HasCounter(pg.Name, c.Name) || cfg.HasCounterPrefix(pg.Name, c.Name)
+					// The config lists counters with their buckets: a chart whose
+					// data are all in unlisted buckets is not in the config.
+					active = active || cfg.HasCounter(pg.Name, d.name)
 				}
 			}
 			count := &counter{
@@ -562,6 +565,7 @@ func grouped(reports []*telemetryReport) map[programKey]map[counterKey][]*datum 
 					GoVersion: e.GoVersion,
 					Key:       key,
 					Value:     value,
+					name:      counter,
 				}
 				ckey := counterKey{name}
 				result[pgkey][ckey] = append(result[pgkey][ckey], element)
@@ -578,6 +582,7 @@ func grouped(reports []*telemetryReport) map[programKey]map[counterKey][]*datum 
 					Key:       summary,
 					Value:     value,
 					stack:     true,
+					name:      summary,
 				}
 				ckey := counterKey{summary}
 				result[pgkey][ckey] = append(result[pgkey][ckey], element)
